@@ -28,6 +28,7 @@ type ChainMonitor struct {
 	caseId   string
 	seenHash map[int]string // height -> hash at first observation (while the prefix is unchanged)
 	hits     map[string]bool
+	produced map[string]bool // hashes of the blocks this node produced itself
 	// an unaligned production tick happened: outside the quantifier of C01/C04 (the engine,
 	// C20, only ever delivers aligned ticks)
 	Unaligned bool
@@ -66,6 +67,7 @@ func (m *ChainMonitor) CheckChain(blocks []*ledger.Block, step string) {
 	unspent := map[outKey]*outRec{}
 	everCreated := map[outKey]int{}
 	consumed := map[outKey]string{}
+	regNow, regPrev := map[string]bool{}, map[string]bool{} // registered after blocks < k, and one block earlier
 	for k, b := range blocks {
 		// C04 (i) (ii)
 		if k > 0 {
@@ -126,6 +128,19 @@ func (m *ChainMonitor) CheckChain(blocks []*ledger.Block, step string) {
 				outSum := new(big.Int)
 				for _, o := range t.Outputs() {
 					outSum.Add(outSum, new(big.Int).SetUint64(o.InitialValue()))
+					// C10: a yielding recipient is listed by this block or registered in the confirmed state
+					// (inside a batch the verifier's registry is one block behind: either state is accepted here)
+					if o.IsYielding() && !m.produced[blockHashHex(b)] {
+						listed := false
+						for _, a := range b.AddedRegisteredAddresses() {
+							if a == o.Address() {
+								listed = true
+							}
+						}
+						if !listed && !regNow[o.Address()] && !regPrev[o.Address()] {
+							m.hit("C10", "yield-unregistered", fmt.Sprintf("%s: block %d transaction %s gives a yielding output to %s, which is neither registered nor listed as newly registered by the block", step, k, t.Id(), o.Address()))
+						}
+					}
 				}
 				need := new(big.Int).Add(outSum, new(big.Int).SetUint64(set.Fee))
 				if need.Cmp(inSum) > 0 {
@@ -140,6 +155,16 @@ func (m *ChainMonitor) CheckChain(blocks []*ledger.Block, step string) {
 				}
 			}
 		}
+		if m.produced[blockHashHex(b)] {
+			// C11: an honest producer's reward equals the fees collected (plus the genesis amount in a first block)
+			want := new(big.Int).Set(totalFees)
+			if k == 0 {
+				want = new(big.Int).SetUint64(set.Genesis)
+			}
+			if want.Cmp(new(big.Int).SetUint64(rewardValue)) != 0 && want.BitLen() <= 64 {
+				m.hit("C11", "reward-not-fees", fmt.Sprintf("%s: produced block %d pays a reward of %d, the fees of its transactions are %s", step, k, rewardValue, want))
+			}
+		}
 		if k > 0 {
 			if rewards != 1 {
 				m.hit("C04", "reward-count", fmt.Sprintf("%s: block %d has %d reward transactions", step, k, rewards))
@@ -147,6 +172,16 @@ func (m *ChainMonitor) CheckChain(blocks []*ledger.Block, step string) {
 			if new(big.Int).SetUint64(rewardValue).Cmp(totalFees) > 0 {
 				m.hit("C01", "reward-bound", fmt.Sprintf("%s: block %d reward %d > fees %s", step, k, rewardValue, totalFees))
 			}
+		}
+		regPrev = map[string]bool{}
+		for a := range regNow {
+			regPrev[a] = true
+		}
+		for _, a := range b.RemovedRegisteredAddresses() {
+			delete(regNow, a)
+		}
+		for _, a := range b.AddedRegisteredAddresses() {
+			regNow[a] = true
 		}
 		for key, rec := range created {
 			if _, gone := consumed[key]; gone {
@@ -267,6 +302,10 @@ func (m *ChainMonitor) CheckAdmit(t *ledger.Transaction, lastTs int64, lastTxs, 
 // CheckProduced (C11 second sentence): the produced block holds pooled transactions only, none
 // twice, plus exactly one reward paid to the producer; the pool is empty afterwards.
 func (m *ChainMonitor) CheckProduced(b *ledger.Block, poolBefore []*ledger.Transaction, poolAfter int, validator string, first bool, step string) {
+	if m.produced == nil {
+		m.produced = map[string]bool{}
+	}
+	m.produced[blockHashHex(b)] = true
 	pooled := map[string]bool{}
 	for _, t := range poolBefore {
 		pooled[t.Id()] = true
